@@ -103,6 +103,14 @@ def producer_record(prog, f):
     rcs = []
     for r in rets:
         rc = record_class(prog, f.module, r.func) if isinstance(r, ast.Call) else None
+        if rc is None and isinstance(r, ast.Call) and isinstance(r.func, ast.Attribute):
+            # an alternative constructor of the record class: `Rec.spanning(...)`, a classmethod that ends in `cls(...)`
+            owner = record_class(prog, f.module, r.func.value)
+            cm = owner.methods.get(r.func.attr) if owner is not None and hasattr(owner, "methods") else None
+            if cm is not None and cm.kind == "classmethod" and all(
+                    isinstance(x.value, ast.Call) and isinstance(x.value.func, ast.Name) and x.value.func.id == "cls"
+                    for x in walk_own(cm.node) if isinstance(x, ast.Return) and x.value is not None):
+                rc = owner
         if rc is None:
             return None
         rcs.append(rc)
@@ -146,10 +154,11 @@ class TupleView(ast.NodeTransformer):
         return n
 
 
-def ctor_to_tuple(prog, module, e):
-    """a record construction written as the tuple of its components (other expressions unchanged)"""
+def ctor_to_tuple(prog, module, e, cls_fields=None):
+    """a record construction written as the tuple of its components (other expressions unchanged); `cls_fields` are the fields of the
+    record when the construction is written `cls(...)` (read out of one of its own classmethods)"""
     if isinstance(e, ast.Call):
-        cs = components(prog, module, e)
-        if cs is not None and fields_of(prog, module, e.func) is not None:
+        cs = components(prog, module, e, cls_fields)
+        if cs is not None and (fields_of(prog, module, e.func) is not None or (cls_fields is not None and dotted(e.func) == "cls")):
             return ast.copy_location(ast.Tuple(elts=list(cs), ctx=ast.Load()), e)
     return e
